@@ -54,6 +54,7 @@ def inputs(tmp):
         'hex #FF circle a',
         'Hex #aB SQUARE q',
         'circle  a\tsquare b',
+        'wire badwire circle a',
     ]
     out = [{'kind': 'str', 'text': t} for t in texts]
     files = {
@@ -64,11 +65,14 @@ def inputs(tmp):
         'main_imp_bad.m': 'import "lib_bad.m"\ncircle a\n',
         'cyc_a.m': 'import "cyc_b.m"\ncircle ca ref r shape cb\n',
         'cyc_b.m': 'import "cyc_a.m"\nsquare cb ref r shape ca\n',
+        'procfail.m': 'circle pc wire badwire\n',
+        'main_imp_procfail.m': 'import "procfail.m"\ncircle a ref r shape pc\n',
+        'numfail.m': 'circle nc num 13\n',
     }
     for nm, t in files.items():
         with open(os.path.join(tmp, nm), 'w') as f:
             f.write(t)
-    for nm in ('main_ok.m', 'main_bad.m', 'main_imp_bad.m', 'cyc_a.m', 'lib.m'):
+    for nm in ('main_ok.m', 'main_bad.m', 'main_imp_bad.m', 'cyc_a.m', 'lib.m', 'procfail.m', 'main_imp_procfail.m', 'numfail.m'):
         out.append({'kind': 'file', 'path': os.path.join(tmp, nm)})
     return out
 
